@@ -146,6 +146,9 @@ def run(ctx):
     segments_grid(ctx)
     neighbour_tables(ctx)
     griddata_fields(ctx)
+    from .. import intwidth
+
+    intwidth.int_narrowing(ctx)  # index / offset arrays must not wrap
 
 
 def _single(lst, what):
